@@ -68,12 +68,15 @@ func c06(r *core.Run) {
 
 	r.Rule("R6", "lookup is a pure read: no function reachable from Mux.GetHandler stores to a field or element of the Mux / trie node / registered handler, updates one of their maps, or appends to (re-slices and extends) a slice held in them; lookups run concurrently on the listener goroutine and on any goroutine calling With / Resource, so scratch state kept in the Mux would mix the tokens of two names", 1)
 
+	r.Rule("R7", "the mux path is matched as whole tokens: in Mux.GetHandler the remainder of the name after the path prefix is taken only on an edge where the byte following the prefix was compared equal to the token separator (or the lengths are equal); a bare prefix test would route 'testing.x' or 'users.1' to the service 'test' / 'user'", 1)
+
 	root := p.FuncsOfPkg("")
 	ro := resolveMuxRoles(r)
 	if ro == nil {
 		return
 	}
-	c06PureLookup(r)
+	c06PureLookup(r, "R6")
+	c06PrefixBoundary(r)
 	c06GroupTags(r, root, ro)
 	mn := ro.matchNode
 	nodeNodes, nodeParam, nodeWild := ro.nodeNodes, ro.nodeParam, ro.nodeWild
@@ -861,11 +864,11 @@ func valueRoot(v ssa.Value) ssa.Value {
 }
 
 // c06PureLookup is rule R6.
-func c06PureLookup(r *core.Run) {
+func c06PureLookup(r *core.Run, rule string) {
 	p := r.P
 	gh := methodNamed(p, "", "Mux", "GetHandler")
 	if gh == nil {
-		r.Unres("R6", "Mux.GetHandler", "missing")
+		r.Unres(rule, "Mux.GetHandler", "missing")
 		return
 	}
 	shared := map[string]bool{"Mux": true, "node": true, "regHandler": true, "Service": true}
@@ -920,26 +923,81 @@ func c06PureLookup(r *core.Run) {
 				switch x := in.(type) {
 				case *ssa.Store:
 					if f, ok := core.FieldOf(x.Addr); ok && shared[f.Struct] {
-						r.Bad("R6", core.FuncName(fn), "no-store-to("+f.String()+")", p.InstrPos(x), "the lookup path writes "+f.String()+": concurrent lookups race on it")
+						r.Bad(rule, core.FuncName(fn), "no-store-to("+f.String()+")", p.InstrPos(x), "the lookup path writes "+f.String()+": concurrent lookups race on it")
 					}
 					if ia, ok := x.Addr.(*ssa.IndexAddr); ok {
 						if s, ok := fromShared(ia.X, 0); ok {
-							r.Bad("R6", core.FuncName(fn), "no-element-store-into("+s+")", p.InstrPos(x), "the lookup path overwrites an element of "+s)
+							r.Bad(rule, core.FuncName(fn), "no-element-store-into("+s+")", p.InstrPos(x), "the lookup path overwrites an element of "+s)
 						}
 					}
 				case *ssa.MapUpdate:
 					if s, ok := fromShared(x.Map, 0); ok {
-						r.Bad("R6", core.FuncName(fn), "no-map-update-of("+s+")", p.InstrPos(x), "the lookup path updates the map "+s)
+						r.Bad(rule, core.FuncName(fn), "no-map-update-of("+s+")", p.InstrPos(x), "the lookup path updates the map "+s)
 					}
 				case *ssa.Call:
 					if core.CalleeName(x) == "builtin:append" {
 						if s, ok := fromShared(x.Call.Args[0], 0); ok {
-							r.Bad("R6", core.FuncName(fn), "no-append-into("+s+")", p.InstrPos(x), "the lookup path appends into the backing array of "+s+" (a scratch buffer kept in shared state): two concurrent lookups overwrite each other's tokens, so params, group and even the matched handler can belong to another name")
+							r.Bad(rule, core.FuncName(fn), "no-append-into("+s+")", p.InstrPos(x), "the lookup path appends into the backing array of "+s+" (a scratch buffer kept in shared state): two concurrent lookups overwrite each other's tokens, so params, group and even the matched handler can belong to another name")
 						}
 					}
 				}
 			}
 		}
 	}
-	r.OK("R6", core.FuncName(gh), "lookup-tree-writes-no-shared-state", p.Pos(gh.Pos()), fmt.Sprintf("%d functions, %d instructions reachable from the lookup entry point scanned", len(tree), n))
+	r.OK(rule, core.FuncName(gh), "lookup-tree-writes-no-shared-state", p.Pos(gh.Pos()), fmt.Sprintf("%d functions, %d instructions reachable from the lookup entry point scanned", len(tree), n))
+}
+
+// c06PrefixBoundary is rule R7.
+func c06PrefixBoundary(r *core.Run) {
+	p := r.P
+	gh := methodNamed(p, "", "Mux", "GetHandler")
+	if gh == nil || len(gh.Params) < 2 {
+		r.Unres("R7", "Mux.GetHandler", "missing")
+		return
+	}
+	name := gh.Params[1]
+	n := 0
+	for _, b := range gh.Blocks {
+		for _, in := range b.Instrs {
+			sl, ok := in.(*ssa.Slice)
+			if !ok || sl.X != ssa.Value(name) || sl.Low == nil {
+				continue
+			}
+			if k, isC := core.ConstInt(sl.Low); isC && k == 0 {
+				continue // a prefix, not a remainder
+			}
+			n++
+			sepChecked := false
+			for _, ed := range dominatingEdges(sl) {
+				cnd, succ := ed.Norm()
+				bo, ok := cnd.(*ssa.BinOp)
+				if !ok || (bo.Op != token.EQL && bo.Op != token.NEQ) {
+					continue
+				}
+				k, isC := core.ConstInt(bo.Y)
+				if !isC || k != '.' {
+					continue
+				}
+				// the compared byte is an element of the name
+				isElem := false
+				switch x := bo.X.(type) {
+				case *ssa.Index:
+					isElem = x.X == ssa.Value(name)
+				case *ssa.Lookup:
+					isElem = x.X == ssa.Value(name)
+				case *ssa.UnOp:
+					if ia, ok := x.X.(*ssa.IndexAddr); ok {
+						isElem = ia.X == ssa.Value(name)
+					}
+				}
+				if isElem && ((bo.Op == token.EQL) == (succ == 0)) {
+					sepChecked = true
+				}
+			}
+			r.Check(sepChecked, "R7", core.FuncName(gh), "remainder-after-path-starts-at-token-boundary", p.InstrPos(sl), "the remainder is taken only where the byte after the path is the separator", "the name's remainder after the mux path is taken without having tested that the path is followed by the token separator: a name that merely starts with the path text (\"testing.x\" for path \"test\") is routed into this mux and its handler sees token fragments as path parameters")
+		}
+	}
+	if n == 0 {
+		r.OKTrivial("R7", core.FuncName(gh), "no-remainder-slicing", p.Pos(gh.Pos()), "the lookup entry takes no remainder of the name by position")
+	}
 }
